@@ -1,32 +1,233 @@
-(* C18 — Lindbladian generators decompose, recompose and exponentiate correctly: property theorems only. *)
-From Coq Require Import Arith List Bool.
+(* C18 — Lindbladian generators decompose, recompose and exponentiate correctly: property theorems only.
+
+   The model (Model/C18_Lindblad.v) is quara/objects/effective_lindbladian.py AS REPAIRED by
+   fixes/c18-calc-j-mat-identity-component.diff and fixes/c18-jump-operators-cdagger-c.diff; the harness compares the
+   implementation with THIS model.  The two `_refuted` theorems are about [calc_j_mat_prefix] / [jump_d_prefix], the routines
+   AS CODED BEFORE those fixes (kept so that the recorded defects stay documented and are recognised if they return).
+
+   Conventions: d = dimension, B = matrix basis (d*d elements, B 0 = I/sd with sd*sd = d), K = (d*d-1) x (d*d-1) coefficient
+   matrix indexed from 0 (K a b belongs to B (S a), B (S b)); superoperators in the computational basis act on row-major
+   vectorisations ([apply_cb]); [chs_of_cb] = gate.convert_hs (comp basis -> B).  All theorems hold for every ordered field
+   F (executed instance: Qc; also R), every dimension d > 0 and every basis with the stated properties. *)
+From Coq Require Import ZArith Arith List Bool.
 From QV.Core Require Import OF QcOF Sums Mat Cplx Psd.
 From QV.Model Require Import QObj HermEmbed C18_Lindblad.
-From QV.Proofs Require Import C18_Misc.
+From QV.Proofs Require Import C18_Algebra C18_Misc C18_Action C18_Extract C18_Rebuild C18_Verdict C18_Convert C18_Physical
+  C18_Hermitian C18_Bundle C18_Witness.
 Import ListNotations.
 
-(* ---- equality projection: zeroes exactly the first row, fixes the constraint set, is the nearest point (Pythagoras) *)
-Theorem C18_proj_eq_exact : forall (F : OF) n (X : rmat F),
+(* ================================================================ 1. GKSL action *)
+(* generate_hs_from_hk / _from_h / _from_k: for EVERY family B, Hermitian H and Hermitian K (PSD or not) the generator acts on
+   every matrix rho as  -i[H,rho] + sum_ab K_ab (B_a rho B_b^dagger - 1/2 {B_b^dagger B_a, rho}) *)
+Theorem C18_gksl_action_hk : forall (F : OF) (d : nat), (0 < d)%nat ->
+  forall (B : nat -> cmat F) (H K rho : cmat F), hermitian d H -> hermitian (d * d - 1) K ->
+  forall i j, (i < d)%nat -> (j < d)%nat -> apply_cb d (lcb_hk d B H K) rho i j = gksl d B H K rho i j.
+Proof. exact apply_lcb_hk_gksl. Qed.
+Print Assumptions C18_gksl_action_hk.
+
+(* generate_hs_from_hjk (J given independently): X |-> -i(HX - XH^dagger) + JX + XJ^dagger + sum K_ab B_a X B_b^dagger, no hypotheses *)
+Theorem C18_action_hjk : forall (F : OF) (d : nat), (0 < d)%nat ->
+  forall (B : nat -> cmat F) (H J K X : cmat F) i j, (i < d)%nat -> (j < d)%nat ->
+  apply_cb d (lcb_hjk d B H J K) X i j = gen_hjk_map F d B H J K X i j.
+Proof. exact apply_lcb_hjk. Qed.
+Print Assumptions C18_action_hjk.
+
+(* jump operators (any number of arbitrary d x d matrices):  sum_c  c rho c^dagger - 1/2 {c^dagger c, rho} *)
+Theorem C18_gksl_action_jump : forall (F : OF) (d : nat), (0 < d)%nat ->
+  forall (cs : list (cmat F)) (rho : cmat F) i j, (i < d)%nat -> (j < d)%nat ->
+  apply_cb d (jump_d d cs) rho i j = gksl_jump d cs rho i j.
+Proof. exact apply_jump_gksl. Qed.
+Print Assumptions C18_gksl_action_jump.
+
+(* the routine AS CODED BEFORE FIX c18-jump-operators-cdagger-c (c in place of c^dagger c) violates the GKSL equation and trace
+   preservation: c = |0><1|, rho = |1><1| on one qubit *)
+Theorem C18_jump_prefix_refuted :
+  apply_cb 2 (jump_d_prefix 2 [w_c]) w_rho 1%nat 1%nat <> gksl_jump 2 [w_c] w_rho 1%nat 1%nat /\
+  mtrace 2 (apply_cb 2 (jump_d_prefix 2 [w_c]) w_rho) <> c0 (CF Qc_OF).
+Proof. exact jump_prefix_witness. Qed.
+Print Assumptions C18_jump_prefix_refuted.
+
+(* the generator annihilates the trace of every matrix, its HS matrix has a vanishing first row, and that matrix is REAL (so the
+   "imaginary part left" error branch of generate_hs_from_hk is unreachable in exact arithmetic) *)
+Theorem C18_generator_tp_real : forall (F : OF) (d : nat), (0 < d)%nat ->
+  forall (B : nat -> cmat F) (sd : F), basis_hermitian d B -> basis_0th_identity d sd B -> cmul F sd sd = ofnat d ->
+  forall H K : cmat F, hermitian d H -> hermitian (d * d - 1) K ->
+  (forall rho : cmat F, mtrace d (apply_cb d (lcb_hk d B H K) rho) = c0 (CF F)) /\
+  (forall b, chs_of_cb d B (lcb_hk d B H K) 0%nat b = c0 (CF F)) /\
+  (forall a b, (a < d * d)%nat -> (b < d * d)%nat -> im (chs_of_cb d B (lcb_hk d B H K) a b) = c0 F).
+Proof. exact generator_tp_real. Qed.
+Print Assumptions C18_generator_tp_real.
+
+(* ================================================================ 2. extraction, rebuild, parts *)
+(* for all Hermitian H, J and EVERY coefficient matrix K: calc_j_mat gives J, calc_k_mat gives K, calc_h_mat gives H minus its
+   identity component (which generates nothing) *)
+Theorem C18_extract : forall (F : OF) (d : nat), (0 < d)%nat ->
+  forall (B : nat -> cmat F) (sd : F), basis_orthonormal d B -> basis_hermitian d B -> basis_0th_identity d sd B ->
+  cmul F sd sd = ofnat d -> basis_complete d B ->
+  forall H J K : cmat F, hermitian d H -> hermitian d J ->
+  meq d d (calc_j_mat d B (lcb_hjk d B H J K)) J /\
+  meq (d * d - 1) (d * d - 1) (calc_k_mat d B (lcb_hjk d B H J K)) K /\
+  meq d d (calc_h_mat d B (lcb_hjk d B H J K))
+    (fun i j => csub (CF F) (H i j) (cmul (CF F) (zof (vec_of_op d B H 0%nat)) (B 0%nat i j))).
+Proof. exact extract_hjk. Qed.
+Print Assumptions C18_extract.
+
+(* for a GKSL generator (generate_hs_from_hk) the extracted anti-commutator matrix is J(K) = -1/2 sum K_ab B_b^dagger B_a *)
+Theorem C18_extract_hk : forall (F : OF) (d : nat), (0 < d)%nat ->
+  forall (B : nat -> cmat F) (sd : F), basis_orthonormal d B -> basis_hermitian d B -> basis_0th_identity d sd B ->
+  cmul F sd sd = ofnat d -> basis_complete d B ->
+  forall H K : cmat F, hermitian d H -> hermitian (d * d - 1) K ->
+  meq d d (calc_j_mat d B (lcb_hk d B H K)) (j_of_k d B K) /\
+  meq (d * d - 1) (d * d - 1) (calc_k_mat d B (lcb_hk d B H K)) K /\
+  meq d d (calc_h_mat d B (lcb_hk d B H K))
+    (fun i j => csub (CF F) (H i j) (cmul (CF F) (zof (vec_of_op d B H 0%nat)) (B 0%nat i j))).
+Proof. exact extract_hk. Qed.
+Print Assumptions C18_extract_hk.
+
+(* extract-then-rebuild is the identity, for generate_hs_from_hjk(H, J, K) and for generate_hs_from_hk(H, K)
+   (computational basis; conversion to the basis B is injective: C18_convert_roundtrip) *)
+Theorem C18_extract_rebuild : forall (F : OF) (d : nat), (0 < d)%nat ->
+  forall (B : nat -> cmat F) (sd : F), basis_orthonormal d B -> basis_hermitian d B -> basis_0th_identity d sd B ->
+  cmul F sd sd = ofnat d -> basis_complete d B ->
+  (forall H J K : cmat F, hermitian d H -> hermitian d J ->
+     meq (d * d) (d * d) (rebuild_cb d B (lcb_hjk d B H J K)) (lcb_hjk d B H J K)) /\
+  (forall H K : cmat F, hermitian d H -> hermitian (d * d - 1) K ->
+     meq (d * d) (d * d) (rebuild_cb d B (lcb_hk d B H K)) (lcb_hk d B H K)).
+Proof. exact rebuild_both. Qed.
+Print Assumptions C18_extract_rebuild.
+
+(* h part + j part + k part = whole, in the computational basis and in the matrix basis B *)
+Theorem C18_parts_sum : forall (F : OF) (d : nat), (0 < d)%nat ->
+  forall (B : nat -> cmat F) (sd : F), basis_orthonormal d B -> basis_hermitian d B -> basis_0th_identity d sd B ->
+  cmul F sd sd = ofnat d -> basis_complete d B ->
+  forall H J K : cmat F, hermitian d H -> hermitian d J ->
+  let L := lcb_hjk d B H J K in
+  meq (d * d) (d * d)
+    (madd (madd (h_part d (calc_h_mat d B L)) (j_part d (calc_j_mat d B L))) (k_part d B (calc_k_mat d B L))) L /\
+  (forall a b,
+     cadd (CF F) (cadd (CF F) (chs_of_cb d B (h_part d (calc_h_mat d B L)) a b) (chs_of_cb d B (j_part d (calc_j_mat d B L)) a b))
+                 (chs_of_cb d B (k_part d B (calc_k_mat d B L)) a b) = chs_of_cb d B L a b).
+Proof. exact parts_sum_both. Qed.
+Print Assumptions C18_parts_sum.
+
+(* calc_j_mat AS CODED BEFORE FIX c18-calc-j-mat-identity-component (loop over basis[1:]) returns a wrong matrix, and extract-then-
+   rebuild changes the generator, for EVERY generator whose anti-commutator matrix has a non-zero identity component
+   (tr J <> 0: every generator with a non-zero dissipator) *)
+Theorem C18_calc_j_mat_prefix_refuted : forall (F : OF) (d : nat), (0 < d)%nat ->
+  forall (B : nat -> cmat F) (sd : F), basis_orthonormal d B -> basis_hermitian d B -> basis_0th_identity d sd B ->
+  cmul F sd sd = ofnat d ->
+  forall (hv jv : rvec F) (K : cmat F), jv 0%nat <> c0 F ->
+  let L := lcb_hjk d B (op_of_vec d B hv) (op_of_vec d B jv) K in
+  ~ meq d d (calc_j_mat_prefix d B L) (op_of_vec d B jv) /\ ~ meq (d * d) (d * d) (rebuild_cb_prefix d B L) L.
+Proof. exact prefix_refuted. Qed.
+Print Assumptions C18_calc_j_mat_prefix_refuted.
+
+(* conversion comp basis -> B -> comp basis is the identity (gate.convert_hs there and back) *)
+Theorem C18_convert_roundtrip : forall (F : OF) (d : nat), (0 < d)%nat ->
+  forall B : nat -> cmat F, basis_complete d B ->
+  forall L : cmat F, meq (d * d) (d * d) (cb_of_chs d B (chs_of_cb d B L)) L.
+Proof. exact cb_of_chs_of_cb. Qed.
+Print Assumptions C18_convert_roundtrip.
+
+(* the sparse tables of CompositeSystem compute the slow formulas *)
+Theorem C18_sparse_tables : forall (F : OF) (d : nat) (B : nat -> cmat F) (K : cmat F),
+  (forall s t, (t < d * d)%nat -> k_part_sparse d B K s t = k_part d B K s t) /\
+  (forall i j, (j < d)%nat -> j_of_k_sparse d B K i j = j_of_k d B K i j).
+Proof. exact sparse_tables_eq. Qed.
+Print Assumptions C18_sparse_tables.
+
+(* ================================================================ 3. verdicts *)
+(* is_tp(atol): first row within atol of zero (atol = 0: exactly zero); is_cp(atol): the extracted k matrix is Hermitian within
+   atol and its Hermitian part + atol I is positive semidefinite (complex PSD through the real embedding);
+   is_physical = is_tp and is_cp *)
+Theorem C18_verdict_spec : forall (F : OF) (d : nat) (B : nat -> cmat F) (atol : F) (HS : rmat F),
+  let K := calc_k_mat d B (cb_of_hs d B HS) in let k := (d * d - 1)%nat in
+  (is_tp_dec F (d * d) atol HS = true <-> (forall j, (j < d * d)%nat -> kle F (HS 0%nat j) atol /\ kle F (copp F atol) (HS 0%nat j))) /\
+  (is_tp_dec F (d * d) (c0 F) HS = true <-> row0_zero F (d * d) HS) /\
+  (is_cp_dec F d B atol HS = true <->
+     (forall i j, (i < k)%nat -> (j < k)%nat -> kle F (znorm2 (csub (CF F) (K i j) (zconj (K j i)))) (cmul F atol atol)) /\
+     PSD F (k + k) (shiftI F atol (embed F k (herm_part K)))) /\
+  (is_physical_dec F d B atol HS = true <-> is_tp_dec F (d * d) atol HS = true /\ is_cp_dec F d B atol HS = true).
+Proof. exact verdict_spec. Qed.
+Print Assumptions C18_verdict_spec.
+
+(* end to end: the stored HS matrix of generate_hs_from_hk(H, K) is judged physical  iff  K + atol I is positive semidefinite;
+   its first row vanishes identically, so the TP half always holds *)
+Theorem C18_physical_iff_dissipator_psd : forall (F : OF) (d : nat), (0 < d)%nat ->
+  forall (B : nat -> cmat F) (sd : F), basis_orthonormal d B -> basis_hermitian d B -> basis_0th_identity d sd B ->
+  cmul F sd sd = ofnat d -> basis_complete d B ->
+  forall (H K : cmat F) (atol : F), hermitian d H -> hermitian (d * d - 1) K -> kle F (c0 F) atol ->
+  (is_physical_dec F d B atol (cre (chs_of_cb d B (lcb_hk d B H K))) = true <->
+   PSD F (d * d - 1 + (d * d - 1)) (shiftI F atol (embed F (d * d - 1) K))).
+Proof. exact generated_physical_iff. Qed.
+Print Assumptions C18_physical_iff_dissipator_psd.
+
+(* ================================================================ 4. projections *)
+(* equality projection: zeroes exactly the first row, identity on generators with zero first row, idempotent, and the nearest
+   point (Pythagoras) of the set { first row = 0 } *)
+Theorem C18_proj_eq : forall (F : OF) n (X : rmat F),
   row0_zero F n (proj_eq X) /\ (forall i j, i <> 0%nat -> proj_eq X i j = X i j) /\
-  (row0_zero F n X -> meq n n (proj_eq X) X).
-Proof. intros F n X. split; [apply proj_eq_row0|split; [intros; now apply proj_eq_other|apply proj_eq_fix]]. Qed.
-Print Assumptions C18_proj_eq_exact.
+  (row0_zero F n X -> meq n n (proj_eq X) X) /\ (forall i j, proj_eq (proj_eq X) i j = proj_eq X i j) /\
+  (forall Z : rmat F, row0_zero F n Z ->
+     dist2 F n X Z = cadd F (dist2 F n X (proj_eq X)) (dist2 F n (proj_eq X) Z) /\
+     kle F (dist2 F n X (proj_eq X)) (dist2 F n X Z)).
+Proof. exact proj_eq_all. Qed.
+Print Assumptions C18_proj_eq.
 
-Theorem C18_proj_eq_nearest : forall (F : OF) n (X Z : rmat F), row0_zero F n Z ->
-  dist2 F n X Z = cadd F (dist2 F n X (proj_eq X)) (dist2 F n (proj_eq X) Z) /\
-  kle F (dist2 F n X (proj_eq X)) (dist2 F n X Z).
-Proof. intros F n X Z H. split; [now apply proj_eq_pythagoras|now apply proj_eq_nearest]. Qed.
-Print Assumptions C18_proj_eq_nearest.
+(* inequality projection = rebuild with K replaced by K' (K' comes from numpy's eig: an oracle, certificate-checked per run):
+   the result has dissipator matrix K' (so a physical dissipator whenever K' is PSD), keeps the Hamiltonian and anti-commutator
+   matrices, and IS the input when K' = K *)
+Theorem C18_proj_ineq_spec : forall (F : OF) (d : nat), (0 < d)%nat ->
+  forall (B : nat -> cmat F) (sd : F), basis_orthonormal d B -> basis_hermitian d B -> basis_0th_identity d sd B ->
+  cmul F sd sd = ofnat d -> basis_complete d B ->
+  forall H J K : cmat F, hermitian d H -> hermitian d J -> forall K' : cmat F,
+  meq (d * d - 1) (d * d - 1) (calc_k_mat d B (proj_ineq_cb d B (lcb_hjk d B H J K) K')) K' /\
+  meq d d (calc_h_mat d B (proj_ineq_cb d B (lcb_hjk d B H J K) K')) (calc_h_mat d B (lcb_hjk d B H J K)) /\
+  meq d d (calc_j_mat d B (proj_ineq_cb d B (lcb_hjk d B H J K) K')) (calc_j_mat d B (lcb_hjk d B H J K)) /\
+  (meq (d * d - 1) (d * d - 1) K' K -> meq (d * d) (d * d) (proj_ineq_cb d B (lcb_hjk d B H J K) K') (lcb_hjk d B H J K)).
+Proof. exact proj_ineq_hjk. Qed.
+Print Assumptions C18_proj_ineq_spec.
 
-(* ---- trace preservation of every Taylor partial sum of exp(L) (and of every polynomial in L) *)
-Theorem C18_taylor_tp : forall (F : OF) (frz : rmat F -> rmat F) n,
+(* the certificate the check evaluates on K' (real symmetric embedding): X = output, Y = input.  With slack eps, delta it bounds
+   the distance to every PSD Z; exact form: X is THE nearest PSD point, and a PSD input is left unchanged (X = Y) *)
+Theorem C18_psd_certificate : forall (F : OF) k (X Y : rmat F), symmetric F k X -> symmetric F k Y ->
+  (forall (Z : rmat F) eps delta, symmetric F k Z -> PSD F k (shiftI F eps (msub X Y)) ->
+     kle F (inner k k (msub X Y) X) delta -> PSD F k Z ->
+     kle F (csub F (csub F (cadd F (dist2 F k Y X) (dist2 F k X Z)) (cadd F delta delta))
+                   (cadd F (cmul F eps (mtrace k Z)) (cmul F eps (mtrace k Z)))) (dist2 F k Y Z)) /\
+  (PSD F k (msub X Y) -> inner k k (msub X Y) X = c0 F ->
+     (forall Z : rmat F, symmetric F k Z -> PSD F k Z -> kle F (cadd F (dist2 F k Y X) (dist2 F k X Z)) (dist2 F k Y Z)) /\
+     (PSD F k Y -> meq k k X Y)).
+Proof. exact psd_certificate_all. Qed.
+Print Assumptions C18_psd_certificate.
+
+(* ================================================================ 5. exponential *)
+(* FULL statement wanted: "the gate exp(L) of a physical generator is physical (TP and CP)".  PROVED PART: the recurrence the
+   model executes is the exponential series; every Taylor partial sum of exp(L) — and every polynomial in L — of a generator with
+   zero first row has first row e_0 (the gate is trace preserving).  NOT proved: complete positivity of exp(L) for K >= 0
+   (Lindblad's theorem) and convergence; CP of the implementation's gate is checked per run by an exact PSD decision on its Choi matrix. *)
+Theorem C18_to_gate_tp_partial : forall (F : OF) (frz : rmat F -> rmat F) n,
   (forall M i j, (i < n)%nat -> (j < n)%nat -> frz M i j = M i j) ->
-  forall (L : rmat F) N j, row0_zero F n L -> (j < n)%nat ->
-  texp frz n L N 0%nat j = (if Nat.eqb 0 j then c1 F else c0 F).
-Proof. intros F frz n Hf L N j. now apply texp_row0. Qed.
-Print Assumptions C18_taylor_tp.
+  forall (L : rmat F) N,
+  meq n n (texp frz n L N) (poly_sum n (fun k => kdiv F (c1 F) (ffact F k)) L N) /\
+  (row0_zero F n L -> forall j, (j < n)%nat -> texp frz n L N 0%nat j = (if Nat.eqb 0 j then c1 F else c0 F)) /\
+  (row0_zero F n L -> forall (c : nat -> F) j, poly_sum n c L N 0%nat j = cmul F (c 0%nat) (if Nat.eqb 0 j then c1 F else c0 F)).
+Proof. exact taylor_all. Qed.
+Print Assumptions C18_to_gate_tp_partial.
 
-Theorem C18_poly_tp : forall (F : OF) n (c : nat -> F) (L : rmat F) N j, row0_zero F n L ->
-  poly_sum n c L N 0%nat j = cmul F (c 0%nat) (if Nat.eqb 0 j then c1 F else c0 F).
-Proof. intros F n c L N j. now apply poly_sum_row0. Qed.
-Print Assumptions C18_poly_tp.
+(* ================================================================ non-vacuity *)
+(* the 2-qubit normalised Pauli basis over Qc (sd = 2) satisfies every basis hypothesis exactly; H = w_H (complex, non-diagonal)
+   and K = E_00 (rank one, PSD) are Hermitian; w_L = generator of the single jump operator (I (x) X)/2 *)
+Example C18_example_basis :
+  (0 < 4)%nat /\ basis_orthonormal 4 pauli2 /\ basis_hermitian 4 pauli2 /\ @basis_0th_identity Qc_OF 4 (qz 2%Z) pauli2 /\
+  cmul Qc_OF (qz 2%Z) (qz 2%Z) = @ofnat Qc_OF 4 /\ basis_complete 4 pauli2 /\ hermitian 4 w_H /\ hermitian (4 * 4 - 1) w_K.
+Proof. exact (conj (Nat.lt_0_succ 3) (conj pauli2_orthonormal (conj pauli2_hermitian (conj pauli2_0th (conj pauli2_sd
+  (conj pauli2_complete (conj w_H_herm w_K_herm))))))). Qed.
+(* the refutation hypothesis jv 0 <> 0 holds for the physical generator of K = E_00, and the defect is visible on it *)
+Example C18_example_prefix_witness :
+  w_jv 0%nat <> c0 Qc_OF /\ meq 4 4 (op_of_vec 4 pauli2 w_jv) (j_of_k 4 pauli2 w_K) /\
+  ~ meq 4 4 (calc_j_mat_prefix 4 pauli2 w_L) (op_of_vec 4 pauli2 w_jv) /\ ~ meq 16 16 (rebuild_cb_prefix 4 pauli2 w_L) w_L.
+Proof. exact (conj w_jv0 (conj w_J_is_J_of_K calc_j_mat_witness)). Qed.
+(* row0_zero / proj_eq on a concrete non-TP matrix *)
+Example C18_example_proj_eq : ~ row0_zero Qc_OF 2 w_X /\ row0_zero Qc_OF 2 (proj_eq w_X) /\ proj_eq w_X 1%nat 1%nat = qz 4%Z.
+Proof. exact proj_eq_example. Qed.
